@@ -782,6 +782,10 @@ def _exec_abs(stmts: List[ast.stmt], env: Dict[str, tuple], default_attr: str, s
             if not _exec_abs(s.body if t[1] else s.orelse, env, default_attr, stop):
                 return False
             continue
+        if isinstance(s, ast.AnnAssign):
+            if s.value is None:
+                continue
+            s = ast.Assign(targets=[s.target], value=s.value)
         if isinstance(s, ast.Assign) and len(s.targets) == 1 and isinstance(s.targets[0], ast.Name):
             name = s.targets[0].id
             if name in env:
@@ -791,6 +795,8 @@ def _exec_abs(stmts: List[ast.stmt], env: Dict[str, tuple], default_attr: str, s
                 env[name] = v
             continue
         if isinstance(s, ast.Assign):
+            continue
+        if isinstance(s, ast.Pass):
             continue
         return False
     return True
@@ -886,39 +892,74 @@ def _rule_arguments(ctx: Ctx, r: LockRoles) -> None:
     if not clock:
         ctx.violation('C12-R8', 'no stage-2 clock', f'{FILE}:{acq.lineno}', 'timed wait has no deadline',
                       construct=construct_key(acq.qualname, 'no clock'))
-    def is_deadline(n: Node) -> bool:
+    clockvars = {c.meta['name'] for c in clock}
+
+    def classify_T(n: Node):
+        """Branches that compare the timeout parameter: returns (kind, ok_edge, expired_edge) or None.
+        kind A : `0 <= timeout` (no deadline when false)      A- : `timeout < 0` (no deadline when true)
+        kind B : `timeout < elapsed` (not yet expired when false; expired when true)
+        kind AB: `0 <= timeout < elapsed`"""
         if n.kind != 'branch':
-            return False
+            return None
         t = n.meta['test']
+        if not isinstance(t, ast.Compare):
+            return None
         names = {x.id for x in ast.walk(t) if isinstance(x, ast.Name)}
-        return isinstance(t, ast.Compare) and tp in names and any(c.meta['name'] in names for c in clock) and \
-            any(isinstance(x, ast.Call) and g.res.path(x.func) == 'time.time' for x in ast.walk(t))
-    deadlines = [n for n in g.nodes if is_deadline(n)]
-    for s in sleeps:
-        heads = [n for n in g.nodes if n.kind == 'loop_head' and n.ast in s.loops]
-        w = must_pass(g, os_calls, [s], deadlines)
-        ctx.check('C12-R8', f'every cycle to {norm(s.ast)} passes the deadline test', g.loc(s),
-                  w is None and bool(deadlines), 'deadline tested between every attempt and the sleep',
+        if tp not in names:
+            return None
+        has_clock = bool(names & clockvars) and any(isinstance(x, ast.Call) and g.res.path(x.func) == 'time.time' for x in ast.walk(t))
+        def is0(e):
+            return isinstance(e, ast.Constant) and e.value == 0 and not isinstance(e.value, bool)
+        def isT(e):
+            return isinstance(e, ast.Name) and e.id == tp
+        ops, cmps = t.ops, [t.left] + list(t.comparators)
+        if len(ops) == 2 and is0(cmps[0]) and isinstance(ops[0], ast.LtE) and isT(cmps[1]) and isinstance(ops[1], (ast.Lt, ast.LtE)) and has_clock:
+            return 'AB', 'false', 'true'
+        if len(ops) == 1 and not has_clock:
+            l, r_, op = cmps[0], cmps[1], ops[0]
+            if (is0(l) and isT(r_) and isinstance(op, ast.LtE)) or (isT(l) and is0(r_) and isinstance(op, ast.GtE)):
+                return 'A', 'false', None
+            if (isT(l) and is0(r_) and isinstance(op, ast.Lt)) or (is0(l) and isT(r_) and isinstance(op, ast.Gt)):
+                return 'A-', 'true', None
+            return None
+        if len(ops) == 1 and has_clock:
+            l, r_, op = cmps[0], cmps[1], ops[0]
+            if isT(l) and isinstance(op, (ast.Lt, ast.LtE)):
+                return 'B', 'false', 'true'
+            if isT(r_) and isinstance(op, (ast.Gt, ast.GtE)):
+                return 'B', 'false', 'true'
+            if isT(l) and isinstance(op, (ast.Gt, ast.GtE)):
+                return 'B', 'true', 'false'
+            if isT(r_) and isinstance(op, (ast.Lt, ast.LtE)):
+                return 'B', 'true', 'false'
+        return 'unknown', None, None
+    tb = [(n, classify_T(n)) for n in g.nodes]
+    tb = [(n, c) for n, c in tb if c is not None and n.loops]
+    unknown = [n for n, c in tb if c[0] == 'unknown']
+    for n in unknown:
+        ctx.undecided('C12-R8', f'timeout comparison {norm(n.meta["test"])}', g.loc(n), 'unrecognised deadline comparison')
+    ok_edges = {(n.id, c[1]) for n, c in tb if c[1]}
+    expired = [(n, c[2]) for n, c in tb if c[2]]
+    for s_ in sleeps:
+        w = find_path(g, os_calls, [s_], edge_ok=lambda e: (e.src.id, e.label) not in ok_edges)
+        ctx.check('C12-R8', f'every cycle to {norm(s_.ast)} passes the deadline test', g.loc(s_),
+                  w is None and bool(expired), 'deadline tested (or no deadline: timeout < 0) between every attempt and the sleep',
                   'a timed acquire can sleep again without checking its deadline', witness=render(g, w),
                   construct=construct_key(acq.qualname, 'sleep without deadline test'))
-        a = s.ast.args[0] if s.ast.args else None
-        ctx.check('C12-R8', f'sleep argument {norm(a) if a is not None else None}', g.loc(s),
+        a = s_.ast.args[0] if s_.ast.args else None
+        ctx.check('C12-R8', f'sleep argument {norm(a) if a is not None else None}', g.loc(s_),
                   isinstance(a, ast.Name) and a.id == pollp, 'sleeps for poll_interval',
-                  'sleep duration is not the poll interval', construct=construct_key(acq.qualname, s.ast))
-    for d in deadlines:
-        t = d.meta['test']
-        # shape 0 <= timeout < now - start : the true edge must lead to return False without sleeping
-        te = [e for e in g.succ[d.id] if e.label == 'true']
+                  'sleep duration is not the poll interval', construct=construct_key(acq.qualname, s_.ast))
+    for n, lab in expired:
+        te = [e for e in g.succ[n.id] if e.label == lab]
+        # on an A- / A guarded path the deadline applies only when timeout >= 0; the expiry edge itself must leave the loop
         w = find_path(g, [], sleeps, start_edges=te)
-        ctx.check('C12-R8', f'deadline test {norm(t)}: expiry leads out of the loop', g.loc(d), w is None,
+        ctx.check('C12-R8', f'deadline test {norm(n.meta["test"])}: expiry leads out of the loop', g.loc(n), w is None,
                   'expired deadline does not sleep again', 'expired deadline still sleeps', witness=render(g, w),
                   construct=construct_key(acq.qualname, 'deadline ignored'))
-        # polarity: `0 <= timeout < elapsed`
-        good_shape = (isinstance(t, ast.Compare) and len(t.ops) == 2 and isinstance(t.ops[0], ast.LtE)
-                      and isinstance(t.ops[1], (ast.Lt, ast.LtE)) and isinstance(t.left, ast.Constant) and t.left.value == 0
-                      and isinstance(t.comparators[0], ast.Name) and t.comparators[0].id == tp)
-        if not good_shape:
-            ctx.undecided('C12-R8', f'deadline test {norm(t)}', g.loc(d), 'unrecognised deadline comparison')
+    if not expired and not unknown:
+        ctx.violation('C12-R8', 'no deadline test in the poll loop', f'{FILE}:{acq.lineno}', 'a timed acquire never times out',
+                      construct=construct_key(acq.qualname, 'no deadline test'))
 
 
 # ---------------------------------------------------------------------------
